@@ -3,12 +3,13 @@ module verifharness
 go 1.23.0
 
 require (
+	github.com/ProtonMail/go-crypto v1.2.0
 	github.com/google/go-containerregistry v0.20.3
+	github.com/sigstore/sigstore v1.9.3
 	github.com/sylabs/sif/v2 v2.0.0
 )
 
 require (
-	github.com/ProtonMail/go-crypto v1.2.0 // indirect
 	github.com/cloudflare/circl v1.6.0 // indirect
 	github.com/go-jose/go-jose/v4 v4.0.5 // indirect
 	github.com/google/uuid v1.6.0 // indirect
@@ -16,7 +17,6 @@ require (
 	github.com/opencontainers/go-digest v1.0.0 // indirect
 	github.com/secure-systems-lab/go-securesystemslib v0.9.0 // indirect
 	github.com/sigstore/protobuf-specs v0.4.1 // indirect
-	github.com/sigstore/sigstore v1.9.3 // indirect
 	github.com/titanous/rocacheck v0.0.0-20171023193734-afe73141d399 // indirect
 	golang.org/x/crypto v0.36.0 // indirect
 	golang.org/x/sys v0.31.0 // indirect
